@@ -176,6 +176,22 @@ package lfs
 //@   ensures @C07 p.Size != 0 ==> str_hasprefix(result, scat(scat("version ", "https://git-lfs.github.com/spec/v1"), "\n"))
 //@   ensures @C07 p.Size != 0 ==> str_hassuffix(result, scat(scat("size ", str_of_int(p.Size)), "\n"))
 
+// Writing a pointer out appends exactly its encoded text to the writer
+// (nothing for the empty pointer) - for the one-shot filters, the long-running
+// filter and every "pass the pointer through" path alike.
+//@ func EncodePointer
+//@   props C07 C08 C14 C04 C01
+//@   requires @inv writer != nil && pointer != nil
+//@   modifies fresh, ghost wbuf[writer]
+//@   ensures result1 == nil && pointer.Size != 0 ==> wbuf(writer) == scat(old(wbuf(writer)), penc(pointer))
+//@   ensures result1 == nil && pointer.Size == 0 ==> wbuf(writer) == old(wbuf(writer))
+//@ func (*Pointer).Encode
+//@   props C07 C08 C14 C04 C01
+//@   requires @inv writer != nil && p != nil
+//@   modifies fresh, ghost wbuf[writer]
+//@   ensures result1 == nil && p.Size != 0 ==> wbuf(writer) == scat(old(wbuf(writer)), penc(p))
+//@   ensures result1 == nil && p.Size == 0 ==> wbuf(writer) == old(wbuf(writer))
+
 //@ func NewPointer
 //@   props C07
 //@   modifies fresh
